@@ -14,12 +14,14 @@ func main() {
 		os.Exit(2)
 	}
 	switch os.Args[1] {
+	case "check":
+		os.Exit(cmdCheck(os.Args[2:]))
 	case "dump":
 		fs := flag.NewFlagSet("dump", flag.ExitOnError)
 		repo := fs.String("repo", "/repo", "")
 		grep := fs.String("fn", "", "substring of function key")
 		fs.Parse(os.Args[2:])
-		p, err := loadProg(*repo, "", nil)
+		p, err := loadProg(*repo, "", controlSources())
 		if err != nil {
 			fmt.Fprintln(os.Stderr, err)
 			os.Exit(2)
@@ -36,6 +38,53 @@ func main() {
 			fn := p.fnIndex[k]
 			fmt.Println("=====", k, p.Pos(fn.Pos()))
 			fn.WriteTo(os.Stdout)
+		}
+	case "lockdump":
+		repo := "/repo"
+		if len(os.Args) > 2 {
+			repo = os.Args[2]
+		}
+		p, err := loadProg(repo, "", nil)
+		if err != nil {
+			fmt.Fprintln(os.Stderr, err)
+			os.Exit(2)
+		}
+		e := newLockEngine(p)
+		for _, f := range e.pairFindings() {
+			fmt.Println("PAIR", f.Construct, p.Pos(f.At.Pos()))
+		}
+		re, edges := e.reentAndOrder()
+		for _, f := range re {
+			fmt.Println("REENT", f.Construct, shortPos(p, f.At), f.Detail)
+			for _, s := range f.Path {
+				fmt.Println("     ", s)
+			}
+		}
+		seenE := map[string]bool{}
+		for _, ed := range edges {
+			k := ed.From.ID + " -> " + ed.To.ID
+			if !seenE[k] {
+				seenE[k] = true
+				fmt.Println("EDGE", k, "   ", ed.Path[0])
+			}
+		}
+		for _, cyc := range orderCycles(edges) {
+			fmt.Println("CYCLE")
+			for _, ed := range cyc {
+				fmt.Println("   ", ed.From.ID, "->", ed.To.ID)
+				for _, s := range ed.Path {
+					fmt.Println("        ", s)
+				}
+			}
+		}
+		for _, f := range e.blockHeldDirect() {
+			fmt.Println("BLOCK", f.Construct, shortPos(p, f.At))
+		}
+		for _, f := range e.blockHeldCalls() {
+			fmt.Println("BLOCKCALL", f.Construct, shortPos(p, f.At))
+			for _, s := range f.Path {
+				fmt.Println("        ", s)
+			}
 		}
 	default:
 		fmt.Fprintln(os.Stderr, "unknown command")
